@@ -217,6 +217,11 @@ type nodeH struct {
 	budget int
 	// blocks whose filter header an honest remote has served so far
 	honestCF map[chainhash.Hash]bool
+	// an honest remote has answered a getcfcheckpt request
+	honestCP bool
+	// the honest remote H was the client's sync peer at some quiescent
+	// point since the last chain event
+	honestWasSyncPeer bool
 	// the first false filter header seen in the store, and whether an
 	// honest remote had answered the request it came from by then
 	poisoned      string
@@ -269,7 +274,7 @@ func (h *nodeH) truthFH(n *verifchain.Node) chainhash.Hash {
 // claimedFH is the filter header remote p claims for n: the true one, or for
 // a liar the chain that results from its false filter hash at lieAt.
 func (h *nodeH) claimedFH(p *nodePeer, n *verifchain.Node) chainhash.Hash {
-	if p.behaviour != "false-cfheaders" || n.Height < p.lieAt {
+	if !p.liar() || n.Height < p.lieAt {
 		return h.truthFH(n)
 	}
 	if p.fh == nil {
@@ -281,6 +286,14 @@ func (h *nodeH) claimedFH(p *nodePeer, n *verifchain.Node) chainhash.Hash {
 		}
 		return h.f.data[x.Hash].FilterHash
 	})
+}
+
+// liar: the remote claims a false filter hash at lieAt (and everything that
+// follows from it); "false-cfheaders" also serves the matching false filter,
+// "false-cfheaders-true-filter" serves the true filter, which does not hash
+// to its claim.
+func (p *nodePeer) liar() bool {
+	return p.behaviour == "false-cfheaders" || p.behaviour == "false-cfheaders-true-filter"
 }
 
 func (p *nodePeer) services() wire.ServiceFlag {
@@ -448,6 +461,11 @@ func (h *nodeH) replies(p *nodePeer, q wire.Message) (out []wire.Message, drop b
 				cps = append([]*chainhash.Hash{&c}, cps...)
 			}
 		}
+		if p.behaviour == "short-cfcheckpt" && len(cps) > 1 {
+			// a node that has not indexed filters beyond the first
+			// checkpoint interval
+			cps = cps[:1]
+		}
 		resp := wire.NewMsgCFCheckpt(m.FilterType, &m.StopHash, len(cps))
 		for _, c := range cps {
 			if err := resp.AddCFHeader(c); err != nil {
@@ -484,7 +502,7 @@ func (h *nodeH) replies(p *nodePeer, q wire.Message) (out []wire.Message, drop b
 				continue
 			}
 			fh := f.data[n.Hash].FilterHash
-			if p.behaviour == "false-cfheaders" && n.Height == p.lieAt {
+			if p.liar() && n.Height == p.lieAt {
 				fh = f.data[n.Hash].BadHash
 			}
 			c := fh
@@ -682,10 +700,13 @@ func (h *nodeH) handle(cn *nodeConn) {
 				h.answered[key] = map[string]bool{}
 			}
 			h.answered[key][cn.p.name] = true
-			if cn.p.behaviour == "false-cfheaders" && h.liesIn(cn.p, it.req) {
+			if cn.p.liar() && h.liesIn(cn.p, it.req) {
 				h.answered[key][cn.p.name+":lied"] = true
 			}
 		}
+	}
+	if _, ok := it.req.(*wire.MsgGetCFCheckpt); ok && cn.p.behaviour == "honest" && len(msgs) > 0 {
+		h.honestCP = true
 	}
 	if q, ok := it.req.(*wire.MsgGetCFHeaders); ok && cn.p.behaviour == "honest" && len(msgs) > 0 {
 		if h.honestCF == nil {
@@ -766,7 +787,12 @@ func (h *nodeH) checkPoison() {
 			h.poisonChecked = ht
 		}
 		if *fh != h.truthFH(n) {
-			if h.honestCF[n.Hash] {
+			// below a filter checkpoint the value committed is decided by
+			// the checkpoint round: an honest answer to the batch request
+			// is discarded when it contradicts checkpoints that only a
+			// liar supplied
+			lastCP := uint32(h.honestTip().Height) / wire.CFCheckptInterval * wire.CFCheckptInterval
+			if h.honestCF[n.Hash] && (ht > lastCP || h.honestCP) {
 				h.poisoned = "despite-honest-response"
 			} else {
 				h.poisoned = "without-honest-response"
@@ -931,7 +957,7 @@ var nodeModes = map[string]nodeMode{
 	"C04L": {name: "C04", converge: true, long: true, behaviours: []string{"false-cfheaders", "false-prev-header", "silent", "drops-on-cf", "honest", "invalid-header", "garbage"}},
 	"C19N": {name: "C19", subs: true, behaviours: []string{"honest", "silent", "invalid-header", "lighter-fork", "false-cfheaders", "drops-on-cf"}},
 	"C19L": {name: "C19", subs: true, long: true, behaviours: []string{"honest", "false-cfheaders", "silent", "drops-on-cf"}},
-	"C03L": {name: "C03", behaviours: []string{"false-cfheaders", "false-prev-header", "silent", "drops-on-cf", "honest"}, long: true},
+	"C03L": {name: "C03", behaviours: []string{"false-cfheaders", "false-cfheaders-true-filter", "short-cfcheckpt", "false-prev-header", "silent", "drops-on-cf", "honest"}, long: true},
 }
 
 type nodeEv struct {
@@ -951,10 +977,10 @@ func nodeRun(c *verifeng.Chooser, f *nodeFix, env *verifhfs.Env, mode nodeMode, 
 	for i := 0; i < nadv; i++ {
 		p := &nodePeer{name: string(rune('P' + i))}
 		p.behaviour = mode.behaviours[c.ChooseFree(len(mode.behaviours), "behaviour")]
-		if p.behaviour == "false-cfheaders" && !mode.long {
+		if p.liar() && !mode.long {
 			p.lieAt = int32(1 + c.ChooseFree(2, "lie-at")*2) // height 1 or 3
 		}
-		if p.behaviour == "false-cfheaders" && mode.long {
+		if p.liar() && mode.long {
 			// inside the first checkpoint interval, exactly on a
 			// checkpoint, inside the second interval, above the last
 			// checkpoint
@@ -1081,6 +1107,11 @@ func nodeRun(c *verifeng.Chooser, f *nodeFix, env *verifhfs.Env, mode nodeMode, 
 		if h.safety() {
 			return
 		}
+		if sp := h.cs.blockManager.SyncPeer(); sp != nil {
+			if p := h.peerByAddr(sp.Addr()); p != nil && p.name == "H" {
+				h.honestWasSyncPeer = true
+			}
+		}
 		if mode.subs && h.drainSubs() {
 			return
 		}
@@ -1101,13 +1132,16 @@ func nodeRun(c *verifeng.Chooser, f *nodeFix, env *verifhfs.Env, mode nodeMode, 
 			return
 		}
 		steps++
+		if steps%16 == 0 {
+			verifbubble.MaybeGC()
+		}
 		if steps > 800 {
 			c.Fail(mode.name, mode.name+":no-progress", "800 steps without reaching the end of the script")
 			return
 		}
 		acts := h.pending()
 		var menu []nodeAct
-		fire := func(ev nodeEv) func() { return func() { next++; idle = 0; ev.run() } }
+		fire := func(ev nodeEv) func() { return func() { next++; idle = 0; h.honestWasSyncPeer = false; ev.run() } }
 		// default action
 		switch {
 		case len(acts) > 0:
@@ -1138,6 +1172,9 @@ func nodeRun(c *verifeng.Chooser, f *nodeFix, env *verifhfs.Env, mode nodeMode, 
 				if h.poisoned != "" {
 					sig += ":false-filter-header-committed-" + h.poisoned
 					why += "; " + h.poisonedNote
+				} else if _, bt, err := h.cs.BlockHeaders.ChainTip(); err == nil && int32(bt) < h.honestTip().Height && !h.honestWasSyncPeer {
+					sig += ":honest-peer-never-chosen-as-sync-peer"
+					why += "; in these 300 s the honest remote was never the sync peer"
 				}
 				c.Fail("C04", sig, "%d virtual seconds after the last event, with the honest peer answering everything: %s", idle, why)
 				return
@@ -1601,7 +1638,7 @@ func (h *nodeH) finalChecks() bool {
 			if cn := h.liveConn(p); cn != nil && cn.ready {
 				return c.Fail("C13", "C13:service-bits-not-disconnected", "%s (%s) advertised services %v and its connection is still open", p.name, p.addr, p.services())
 			}
-		case "false-cfheaders":
+		case "false-cfheaders", "false-cfheaders-true-filter":
 			if h.oracle != "C03" || h.poisoned != "" {
 				continue
 			}
@@ -1778,7 +1815,16 @@ func runNode(t *testing.T, harness, modeName string) {
 	if tier == "thorough" {
 		cfgs = []nodeCfg{{3, 1}, {2, 2}}
 	}
-	if modeName == "C03L" || modeName == "C04L" || modeName == "C19L" {
+	if modeName == "C03L" {
+		// the second configuration is the default schedule for every
+		// pair of adversaries (two liars, a liar next to a peer with a
+		// shorter checkpoint list, ...)
+		cfgs = []nodeCfg{{1, 1}, {0, 2}}
+		if tier == "thorough" {
+			cfgs = []nodeCfg{{2, 1}, {1, 2}}
+		}
+	}
+	if modeName == "C04L" || modeName == "C19L" {
 		cfgs = []nodeCfg{{1, 1}}
 		if tier == "thorough" {
 			cfgs = []nodeCfg{{2, 1}, {1, 2}}
